@@ -36,6 +36,7 @@ from ZODB._compat import PersistentUnpickler
 from ZODB._compat import ascii_bytes
 from ZODB.interfaces import BlobError
 from ZODB.POSException import POSKeyError
+from ZODB.POSException import UndoError
 
 
 logger = logging.getLogger('ZODB.blob')
@@ -892,7 +893,40 @@ class BlobStorage(BlobStorageMixin):
 
         return result
 
+    def _blob_changed_since(self, oid, tid):
+        # Did a later transaction -- committed, or an earlier undo of the
+        # transaction in progress -- give the blob other bytes than `tid`?
+        # (The data records of a blob are all alike: the wrapped storage
+        # cannot tell.)
+        later = [serial for doid, serial in self.dirty_oids if doid == oid]
+        if not later:
+            try:
+                later = [self.__storage.getTid(oid)]
+            except POSKeyError:
+                return False
+        if later[-1] == tid:
+            return False
+        try:
+            with open(self.fshelper.getBlobFilename(oid, tid), 'rb') as f1:
+                with open(self.fshelper.getBlobFilename(oid, later[-1]),
+                          'rb') as f2:
+                    while 1:
+                        d1 = f1.read(1 << 16)
+                        if d1 != f2.read(1 << 16):
+                            return True
+                        if not d1:
+                            return False
+        except OSError:
+            return False
+
     def undo(self, serial_id, transaction):
+        with self._lock:
+            tid = decodebytes(serial_id + b'\n')
+            for oid in self.fshelper.getOIDsForSerial(tid):
+                if self._blob_changed_since(oid, tid):
+                    raise UndoError(
+                        "Blob data were modified by a later transaction",
+                        oid)
         undo_serial, keys = self.__storage.undo(serial_id, transaction)
         # serial_id is the transaction id of the txn that we wish to undo.
         # "undo_serial" is the transaction id of txn in which the undo is
